@@ -4,6 +4,7 @@ import (
 	"context"
 	"crypto/sha256"
 	"encoding/hex"
+	"encoding/json"
 	"fmt"
 	"sort"
 	"strings"
@@ -282,7 +283,10 @@ func (st *clientState) exec(op Op) (r OpResult) {
 	case "Listen":
 		ch, _ := mgr.Listen()
 		go func() {
-			for range ch {
+			// like the websocket handler: every event is encoded, which reads
+			// everything the event points to
+			for ev := range ch {
+				json.Marshal(ev)
 			}
 		}()
 
